@@ -169,6 +169,21 @@ def parse_tlc(out):
     return st
 
 
+def run_apalache(scratch, module, args, timeout=900, name=None):
+    """apalache-mc check ... on specs/<module>.tla in a private directory; returns (ok, tail of the output)."""
+    d = tempfile.mkdtemp(prefix="apa_%s_" % (name or module), dir=scratch)
+    for f in os.listdir(SPECS):
+        if f.endswith(".tla"):
+            shutil.copyfile(os.path.join(SPECS, f), os.path.join(d, f))
+    try:
+        p = subprocess.run(["apalache-mc", "check"] + args + [module + ".tla"], cwd=d, stdout=subprocess.PIPE,
+                           stderr=subprocess.STDOUT, text=True, timeout=timeout)
+    except subprocess.TimeoutExpired:
+        raise Infra("apalache timed out on %s %s" % (module, args))
+    out = p.stdout
+    return "EXITCODE: OK" in out, out[-1500:]
+
+
 def tlc_ok(out, stats, what):
     if stats.get("violation") or stats.get("error") or "Model checking completed. No error has been found." not in out:
         raise Infra("TLC did not complete cleanly for %s: violation=%s error=%s\n%s" % (
